@@ -2,6 +2,13 @@
 
 argv: store_dir direct(0|1) dtype shape(comma list) seed [uid]
 Prints 'RESULT <type of returned object> <type of its __cause__>' (never reached if the process is killed).
+
+C08_MODE=limits: a sweep of puts under a file-size limit (RLIMIT_FSIZE; CPython ignores SIGXFSZ, so a write that
+crosses the limit is cut short and RETURNS the count, a write at the limit fails with EFBIG) -- the way a quota or a
+full disk looks to a writer, injected from outside the library.  The plan is JSON on stdin:
+{"limits": [[limit, previous_chunk(0|1)], ...], "sep": marker file}; every put is bracketed by
+truncate(sep, 2i) / truncate(sep, 2i+1) so that the parent can cut the strace output into puts.  One JSON line
+'LIMIT {...}' per put: report, state of the final and temp names, what a fresh reader sees, directory listing.
 """
 import os
 import sys
@@ -15,6 +22,67 @@ def make_chunk(dtype, shape, seed):
     return x.reshape(shape)
 
 
+def classify(path, old_bytes, new_bytes):
+    if not os.path.isfile(path):
+        return ['absent']
+    b = open(path, 'rb').read()
+    return ['new'] if b == new_bytes else ['old'] if b == old_bytes else ['other', len(b), new_bytes[:len(b)] == b]
+
+
+def limits_mode(d, direct, dt, shape, seed):
+    import json
+    import resource
+    from katdal.chunkstore import npy_header_and_body
+    from katdal.chunkstore_npy import NpyFileChunkStore
+    plan = json.loads(sys.stdin.read())
+    sep = plan['sep']
+    store = NpyFileChunkStore(d, direct_write=direct)
+    new, old = make_chunk(dt, shape, seed), make_chunk(dt, shape, seed - 1)
+    sl = tuple(slice(0, n) for n in shape)
+    enc = lambda x: (lambda h, b: bytes(h) + b.tobytes())(*npy_header_and_body(x))   # noqa: E731
+    new_bytes, old_bytes = enc(new), enc(old)
+    base = os.path.join(d, 'a', '_'.join('%05d' % 0 for _ in shape))
+    tmpn, finaln = base + '.writing.npy', base + '.npy'
+    soft, hard = resource.getrlimit(resource.RLIMIT_FSIZE)
+
+    def look():
+        try:
+            y = NpyFileChunkStore(d).get_chunk('a', sl, new.dtype)
+            seen = 'new' if np.array_equal(y, new) else 'old' if np.array_equal(y, old) else 'OTHER'
+            if new.size == 0:
+                seen = 'array'
+        except Exception as e:
+            seen = 'raise:' + type(e).__module__ + '.' + type(e).__qualname__
+        return seen
+
+    for i, (limit, with_old) in enumerate(plan['limits']):
+        for p in os.listdir(os.path.join(d, 'a')):
+            os.remove(os.path.join(d, 'a', p))
+        if with_old:
+            with open(finaln, 'wb') as f:
+                f.write(old_bytes)
+        os.truncate(sep, 2 * i)
+        if limit is not None:
+            resource.setrlimit(resource.RLIMIT_FSIZE, (limit, hard))
+        try:
+            try:
+                r = store.put_chunk_noraise('a', sl, new)
+                c = r.__cause__ if r is not None else None
+                rep = ['returned', type(r).__module__ + '.' + type(r).__qualname__,
+                       type(c).__name__ if c is not None else '-', getattr(c, 'errno', None)]
+            except BaseException as e:
+                rep = ['raised', type(e).__module__ + '.' + type(e).__qualname__, '-', getattr(e, 'errno', None)]
+        finally:
+            resource.setrlimit(resource.RLIMIT_FSIZE, (soft, hard))
+        os.truncate(sep, 2 * i + 1)
+        out = dict(i=i, limit=limit, old=with_old, rep=rep, final=classify(finaln, old_bytes, new_bytes),
+                   tmp=classify(tmpn, old_bytes, new_bytes), reader=look(), listing=sorted(os.listdir(os.path.join(d, 'a'))))
+        os.write(1, ('LIMIT ' + json.dumps(out) + '\n').encode())
+    # space is available again: a later put works and is visible
+    r = store.put_chunk_noraise('a', sl, new)
+    os.write(1, ('AFTER ' + json.dumps(dict(rep=repr(r), reader=look())) + '\n').encode())
+
+
 def main():
     d, direct, dt = sys.argv[1], sys.argv[2] == '1', sys.argv[3]
     shape = tuple(int(x) for x in sys.argv[4].split(',') if x)
@@ -22,6 +90,8 @@ def main():
     if len(sys.argv) > 6:
         os.setgid(int(sys.argv[6]))
         os.setuid(int(sys.argv[6]))
+    if os.environ.get('C08_MODE') == 'limits':
+        return limits_mode(d, direct, dt, shape, seed)
     from katdal.chunkstore_npy import NpyFileChunkStore
     try:
         s = NpyFileChunkStore(d, direct_write=direct)
@@ -39,6 +109,10 @@ def main():
                 r = 'raise:' + type(e).__module__ + '.' + type(e).__qualname__
             os.write(1, ('GET %s %s\n' % (meth, r)).encode())
         return
+    if os.environ.get('C08_WAIT') == '1':
+        # everything is imported: let the parent attach strace now (the start-up is not traced), then go on
+        os.write(1, b'READY\n')
+        sys.stdin.readline()
     try:
         r = s.put_chunk_noraise('a', sl, x)
         os.write(1, ('RESULT returned %s.%s %s\n' % (type(r).__module__, type(r).__qualname__,
